@@ -10,7 +10,8 @@ from harness.common import registry as R, tcorr, oracles
 PROPERTY = 'C12'
 LEVEL = 'proof'
 REQUIRED_THEOREMS = ['Properties.C12.masked_scatter_gather', 'Properties.C12.rowwise_row', 'Properties.C12.rowwise_perm_equivariant',
-                     'Properties.C12.rowwise_sublist', 'Properties.C12.img_param_layout', 'Properties.C12.exec_coupling_row_independent', 'Properties.C12.exec_ar_row_independent', 'Properties.C12.exec_cdf_row_independent']
+                     'Properties.C12.rowwise_sublist', 'Properties.C12.img_param_layout', 'Properties.C12.exec_coupling_row_independent', 'Properties.C12.exec_ar_row_independent', 'Properties.C12.exec_cdf_row_independent', 
+                     'Properties.C12.exec_ar_accepted_iff_rows', 'Properties.C12.exec_cdf_accepted_iff_rows', 'Properties.C12.exec_coupling_accepted_iff_rows']
 RULE = ("registry (eval mode) x batch sizes {1,2,3,7} x {whole batch vs row-wise model, conditioner outputs batch vs single rows, batch permutation}; "
         "rows mix inside-tail / outside-tail / on-the-bound inputs; distinct = (entry, batch size, direction, check kind); non-trivial = output not the identity")
 EXPLANATION = "row-wise structure proved for the places the code is not written row by row; tie = whole-batch implementation vs the row-wise Lean model, plus conditioner batch-vs-row comparison"
